@@ -120,8 +120,8 @@ func (c *Ctx) N(quick, thorough int) int {
 // thoroughCap: largest ratio thorough/quick of any case count, per property
 // (chosen from measured quick-tier wall times; VERIF_TCAP overrides it).
 var thoroughCap = map[string]int{
-	"C01": 16, "C02": 16, "C03": 20, "C04": 8, "C05": 4, "C06": 3, "C07": 3, "C08": 5, "C09": 6, "C10": 4,
-	"C11": 14, "C12": 30, "C13": 30, "C14": 16, "C15": 20, "C16": 30, "C17": 8, "C18": 14, "C19": 6, "C20": 16,
+	"C01": 8, "C02": 8, "C03": 8, "C04": 4, "C05": 3, "C06": 3, "C07": 3, "C08": 3, "C09": 4, "C10": 3,
+	"C11": 8, "C12": 8, "C13": 8, "C14": 8, "C15": 8, "C16": 8, "C17": 4, "C18": 8, "C19": 3, "C20": 8,
 }
 
 func (c *Ctx) write(s string) {
